@@ -475,3 +475,633 @@ Proof.
   intros H. pose proof (NoDup_remove_1 _ _ _ H). pose proof (NoDup_remove_2 _ _ _ H) as H2.
   repeat split; auto; intros Hi; apply H2; apply in_or_app; auto.
 Qed.
+
+(* ---------- the steps of the mutex holder ---------- *)
+Lemma lst_lt g p k : GS g p -> In k (lst g) -> (k < nheap g)%nat.
+Proof. intros G H. apply isnode_lt. apply (gs_nodes _ _ G). exact H. Qed.
+
+Lemma pubn_lt g k : pubn g k -> (k < nheap g)%nat.
+Proof. intros [H _]. apply isnode_lt. exact H. Qed.
+
+Lemma step_P_alloc g o lo' hi' :
+  GS g (P_alloc o) ->
+  (is_front o = true /\ lo' = lo g - 1 /\ hi' = hi g) \/ (is_front o = false /\ lo' = lo g /\ hi' = hi g + 1) ->
+  let g' := with_pos (fst (do_alloc g (BNode dnode))) lo' hi' in
+  GS g' (P_constr o (nheap g)) /\ mono g g'.
+Proof.
+  intros G Hpos g'. set (n := nheap g).
+  assert (EI : forall k, isnode g' k = if Nat.eqb k n then true else isnode g k).
+  { intros k. unfold g', isnode at 1. change (getc (with_pos ?x _ _) k) with (getc x k).
+    fold (isnode (fst (do_alloc g (BNode dnode))) k). rewrite isnode_alloc. reflexivity. }
+  assert (EG : forall k, gnode g' k = gnode g k).
+  { intros k. unfold g', gnode at 1. change (getc (with_pos ?x _ _) k) with (getc x k).
+    rewrite getc_alloc. fold n. destruct (Nat.eqb_spec k n) as [Ekn|]; [rewrite Ekn in *; clear Ekn|]; [|reflexivity].
+    unfold gnode. rewrite getc_ge by (unfold n; lia). reflexivity. }
+  assert (ER : forall k, isrec g k = true -> isrec g' k = true).
+  { intros k H. unfold g', isrec at 1. change (getc (with_pos ?x _ _) k) with (getc x k).
+    fold (isrec (fst (do_alloc g (BNode dnode))) k). rewrite isrec_alloc.
+    destruct (Nat.eqb_spec k (nheap g)) as [->|]; [|exact H]. apply isrec_lt in H. lia. }
+  assert (EN : forall k, nx g' k = nx g k) by (intros; unfold nx; rewrite EG; reflexivity).
+  assert (EB : forall k, bk g' k = bk g k) by (intros; unfold bk; rewrite EG; reflexivity).
+  assert (ED : forall k, dl g' k = dl g k) by (intros; unfold dl; rewrite EG; reflexivity).
+  assert (EP : forall k, ps g' k = ps g k) by (intros; unfold ps; rewrite EG; reflexivity).
+  assert (EL : lst g' = lst g) by reflexivity.
+  assert (Hn : isnode g n = false) by (unfold isnode; rewrite getc_ge by (unfold n; lia); reflexivity).
+  assert (Hnl : ~ In n (lst g)) by (intros H; apply (lst_lt _ _ _ G) in H; unfold n in H; lia).
+  assert (Hpub : forall k, pubn g k -> pubn g' k).
+  { intros k [A B]. split; [rewrite EI; destruct (Nat.eqb k n); auto|rewrite EL, ED; exact B]. }
+  assert (Hpub' : forall k, pubn g' k -> pubn g k).
+  { intros k [A B]. rewrite EL, ED in B. split; [|exact B]. rewrite EI in A.
+    destruct (Nat.eqb_spec k n) as [Ekn|]; [rewrite Ekn in *; clear Ekn|]; [|exact A]. exfalso. destruct B as [B|B]; [auto|].
+    unfold dl, gnode in B. rewrite getc_ge in B by (unfold n; lia). discriminate. }
+  destruct G as [H1 H2 H3 H4 H5 H6 H7 H8 H9 H10]. split; [|split; auto].
+  constructor.
+  - rewrite EL. exact H1.
+  - intros k Hk. rewrite EI. destruct (Nat.eqb k n); auto.
+  - destruct H3 as [A B]. split; [exact A|]. eapply chn_ext; [|exact B]. intros; apply EN.
+  - intros k Hk. rewrite EI in Hk. rewrite EL, ED. cbn [priv_node].
+    destruct (Nat.eqb_spec k n) as [Ekn|]; [rewrite Ekn in *; clear Ekn|]; [auto|]. destruct (H4 k Hk) as [A|[A|A]]; auto. discriminate.
+  - intros k Hk Hd. rewrite ED in Hd. specialize (H5 k Hk Hd). discriminate.
+  - intros k m Hk Hm. rewrite EN in Hm. destruct (H6 k m (Hpub' _ Hk) Hm) as [A B]. split; [auto|rewrite !EP; exact B].
+  - destruct H7 as [A B]. assert (Elo : lo g' = lo') by reflexivity. assert (Ehi : hi g' = hi') by reflexivity.
+    rewrite Elo, Ehi. split; [destruct Hpos as [(_ & -> & ->)|(_ & -> & ->)]; lia|].
+    intros k Hk. rewrite EI in Hk. rewrite EP.
+    destruct (Nat.eqb_spec k n) as [Ekn|].
+    + rewrite Ekn. unfold ps, gnode. rewrite getc_ge by (unfold n; lia). cbn. destruct Hpos as [(_ & -> & ->)|(_ & -> & ->)]; lia.
+    + specialize (B k Hk). destruct Hpos as [(_ & -> & ->)|(_ & -> & ->)]; lia.
+  - cbn [back_ok] in *. destruct H8 as [A B]. split; [|exact B]. eapply bwdl_ext; [|exact A]. intros; apply EB.
+  - cbn [hold_ok]. repeat split.
+    + unfold g', cs_of. change (getc (with_pos ?x _ _) n) with (getc x n). rewrite getc_alloc. unfold n. rewrite Nat.eqb_refl. reflexivity.
+    + rewrite EG. unfold gnode. rewrite getc_ge by (unfold n; lia). reflexivity.
+    + rewrite EI, Nat.eqb_refl. reflexivity.
+    + exact Hnl.
+    + unfold strict, strictF, strictB. destruct H7 as [_ B].
+      destruct Hpos as [(-> & E1 & E2)|(-> & E1 & E2)]; intros k Hk Hne; rewrite EI in Hk;
+        destruct (Nat.eqb_spec k n); try contradiction; rewrite EP;
+        [change (lo g') with lo'|change (hi g') with hi']; specialize (B k Hk); lia.
+  - exact H10.
+Qed.
+
+(* g' differs from g (as far as Layer A can see) only in the contents of node cell k *)
+Record nodeupd (g g' : glob) (k : nat) : Prop := {
+  nu_isnode : forall j, isnode g' j = isnode g j;
+  nu_isrec : forall j, isrec g' j = isrec g j;
+  nu_head : head g' = head g; nu_tail : tail g' = tail g; nu_lst : lst g' = lst g; nu_mlog : mlog g' = mlog g;
+  nu_lo : lo g' = lo g; nu_hi : hi g' = hi g;
+  nu_gnode : forall j, j <> k -> gnode g' j = gnode g j
+}.
+Lemma nodeupd_setn g k n : isnode g k = true -> nodeupd g (setn g k n) k.
+Proof.
+  intros H. destruct (nviews_setn g k n H). constructor; auto. intros j Hj. apply gnode_setn_ne. exact Hj.
+Qed.
+Lemma nodeupd_construct g k n : isnode g k = true -> nodeupd g (fst (do_construct g k (BNode n))) k.
+Proof.
+  intros H. destruct (construct_fields g k (BNode n)) as (F1 & F2 & F3 & F4 & F5 & F6 & F7 & F8 & F9 & F10 & F11 & F12).
+  constructor; auto.
+  - intros j. apply isnode_construct_node. exact H.
+  - intros j. apply isrec_construct_node. exact H.
+  - intros j Hj. rewrite gnode_construct_node by exact H. destruct (Nat.eqb_spec j k); [contradiction|reflexivity].
+Qed.
+Lemma nodeupd_views g g' k : nodeupd g g' k ->
+  (forall j, j <> k -> nx g' j = nx g j) /\ (forall j, j <> k -> bk g' j = bk g j) /\
+  (forall j, j <> k -> dl g' j = dl g j) /\ (forall j, j <> k -> ps g' j = ps g j).
+Proof. intros U. unfold nx, bk, dl, ps. repeat split; intros j Hj; rewrite (nu_gnode _ _ _ U j Hj); reflexivity. Qed.
+
+(* an update of the holder's private (unpublished) node leaves the list structure alone *)
+Lemma GS_priv_upd g g' p p' n :
+  nodeupd g g' n -> GS g p ->
+  priv_node p = Some n -> priv_node p' = Some n -> erasing p = None -> erasing p' = None ->
+  (back_ok g p = (bwdl g None (lst g) /\ tail g = last_opt (lst g))) ->
+  (back_ok g' p' = (bwdl g' None (lst g') /\ tail g' = last_opt (lst g'))) ->
+  ~ In n (lst g) -> dl g n = false -> dl g' n = false -> lo g <= ps g' n <= hi g ->
+  hold_ok g' p' ->
+  GS g' p' /\ mono g g'.
+Proof.
+  intros U G Pp Pp' Ep Ep' Bp Bp' Hnl Hd Hd' Hps Hh.
+  destruct (nodeupd_views _ _ _ U) as (EN & EB & ED & EP).
+  pose proof (nu_lst _ _ _ U) as EL. pose proof (nu_isnode _ _ _ U) as EI.
+  assert (Hne : forall k, In k (lst g) -> k <> n) by (intros k Hk ->; auto).
+  assert (Hpub : forall k, pubn g k -> pubn g' k /\ k <> n).
+  { intros k [A B]. assert (k <> n) as Hk by (intros ->; destruct B as [B|B]; [auto|congruence]).
+    split; [|exact Hk]. split; [rewrite EI; exact A|rewrite EL, ED by exact Hk; exact B]. }
+  assert (Hpub' : forall k, pubn g' k -> pubn g k /\ k <> n).
+  { intros k [A B]. rewrite EL in B. assert (k <> n) as Hk by (intros ->; destruct B as [B|B]; [auto|congruence]).
+    split; [|exact Hk]. split; [rewrite <- EI; exact A|rewrite <- ED by exact Hk; exact B]. }
+  destruct G as [H1 H2 H3 H4 H5 H6 H7 H8 H9 H10]. split.
+  - constructor.
+    + rewrite EL. exact H1.
+    + intros k. rewrite EL, EI. auto.
+    + destruct H3 as [A B]. split; [rewrite (nu_head _ _ _ U), EL; exact A|]. rewrite EL.
+      eapply chn_ext; [|exact B]. intros a Ha. apply EN. auto.
+    + intros k Hk. rewrite EI in Hk. rewrite EL, Pp'. destruct (Nat.eq_dec k n) as [->|Hkn]; [auto|].
+      rewrite ED by exact Hkn. destruct (H4 k Hk) as [A|[A|A]]; auto. rewrite Pp in A. auto.
+    + intros k Hk Hdk. rewrite EL in Hk. rewrite ED in Hdk by auto. specialize (H5 k Hk Hdk). congruence.
+    + intros k m Hk Hm. destruct (Hpub' _ Hk) as [Hk0 Hkn]. rewrite EN in Hm by exact Hkn.
+      destruct (H6 k m Hk0 Hm) as [A B]. destruct (Hpub _ A) as [A' Hmn].
+      split; [exact A'|]. rewrite !EP by auto. exact B.
+    + rewrite (nu_lo _ _ _ U), (nu_hi _ _ _ U). destruct H7 as [A B]. split; [exact A|].
+      intros k Hk. rewrite EI in Hk. destruct (Nat.eq_dec k n) as [->|Hkn]; [exact Hps|]. rewrite EP by exact Hkn. auto.
+    + rewrite Bp'. rewrite Bp in H8. destruct H8 as [A B]. rewrite EL, (nu_tail _ _ _ U). split; [|exact B].
+      eapply bwdl_ext; [|exact A]. intros a Ha. apply EB. auto.
+    + exact Hh.
+    + rewrite EL, (nu_mlog _ _ _ U). exact H10.
+  - split; [intros k Hk; apply Hpub; exact Hk|intros k Hk; rewrite (nu_isrec _ _ _ U); exact Hk].
+Qed.
+
+Lemma strictF_upd g g' n : nodeupd g g' n -> strictF g n -> strictF g' n.
+Proof.
+  intros U H k Hk Hkn. destruct (nodeupd_views _ _ _ U) as (_ & _ & _ & EP).
+  rewrite (nu_isnode _ _ _ U) in Hk. rewrite (nu_lo _ _ _ U), EP by exact Hkn. auto.
+Qed.
+Lemma strictB_upd g g' n : nodeupd g g' n -> strictB g n -> strictB g' n.
+Proof.
+  intros U H k Hk Hkn. destruct (nodeupd_views _ _ _ U) as (_ & _ & _ & EP).
+  rewrite (nu_isnode _ _ _ U) in Hk. rewrite (nu_hi _ _ _ U), EP by exact Hkn. auto.
+Qed.
+Lemma strict_upd g g' o n : nodeupd g g' n -> strict g o n -> strict g' o n.
+Proof. unfold strict. destruct (is_front o); [apply strictF_upd|apply strictB_upd]. Qed.
+
+Lemma step_P_constr g o n v :
+  GS g (P_constr o n) ->
+  let g' := fst (do_construct g n (BNode (Node None None false v (if is_front o then lo g else hi g)))) in
+  GS g' (P_ld o n) /\ mono g g'.
+Proof.
+  intros G g'. pose proof (gs_hold _ _ G) as Hh. cbn [hold_ok] in Hh. destruct Hh as (Hc & Hg & Hi & Hnl & Hs).
+  pose proof (nodeupd_construct g n (Node None None false v (if is_front o then lo g else hi g)) Hi) as U. fold g' in U.
+  assert (gnode g' n = Node None None false v (if is_front o then lo g else hi g)) as En.
+  { unfold g'. rewrite gnode_construct_node by exact Hi. rewrite Nat.eqb_refl.
+    apply cs_is_iff in Hc. rewrite Hc. reflexivity. }
+  destruct (gs_pos _ _ G) as [[P1 P2] _].
+  eapply GS_priv_upd; eauto; try reflexivity.
+  - unfold dl. rewrite Hg. reflexivity.
+  - unfold dl. rewrite En. reflexivity.
+  - unfold ps. rewrite En. cbn. destruct (is_front o); lia.
+  - cbn [hold_ok]. unfold fresh_node, nx, bk, dl, ps. rewrite En, (nu_isnode _ _ _ U), (nu_lst _ _ _ U), (nu_lo _ _ _ U), (nu_hi _ _ _ U).
+    cbn. repeat split; auto. eapply strict_upd; eauto.
+Qed.
+
+Lemma step_PF_next g n old :
+  GS g (PF_next n old) ->
+  let g' := setn g n (n_next (gnode g n) (Some old)) in
+  GS g' (PF_back n old) /\ mono g g'.
+Proof.
+  intros G g'. pose proof (gs_hold _ _ G) as Hh. cbn [hold_ok] in Hh.
+  destruct Hh as ((Hi & Hnl & Hx & Hb & Hd & Hp & Hs) & Hhd). cbn in Hp, Hs.
+  pose proof (nodeupd_setn g n (n_next (gnode g n) (Some old)) Hi) as U. fold g' in U.
+  destruct (set_next_views g n (Some old) Hi) as (EN & EB & ED & EP). fold g' in EN, EB, ED, EP.
+  destruct (gs_pos _ _ G) as [_ P].
+  eapply GS_priv_upd; eauto; try reflexivity.
+  - rewrite EP. apply P. exact Hi.
+  - cbn [hold_ok]. rewrite (nu_isnode _ _ _ U), (nu_lst _ _ _ U), EN, EB, ED, EP, Nat.eqb_refl, (nu_lo _ _ _ U).
+    repeat split; auto. eapply strictF_upd; eauto.
+Qed.
+
+Lemma step_PB_back g n old :
+  GS g (PB_back n old) ->
+  let g' := setn g n (n_back (gnode g n) (Some old)) in
+  GS g' (PB_next n old) /\ mono g g'.
+Proof.
+  intros G g'. pose proof (gs_hold _ _ G) as Hh. cbn [hold_ok] in Hh.
+  destruct Hh as ((Hi & Hnl & Hx & Hb & Hd & Hp & Hs) & Hhd). cbn in Hp, Hs.
+  pose proof (nodeupd_setn g n (n_back (gnode g n) (Some old)) Hi) as U. fold g' in U.
+  destruct (set_back_views g n (Some old) Hi) as (EN & EB & ED & EP). fold g' in EN, EB, ED, EP.
+  destruct (gs_pos _ _ G) as [_ P].
+  eapply GS_priv_upd; eauto; try reflexivity.
+  - rewrite EP. apply P. exact Hi.
+  - cbn [hold_ok]. rewrite (nu_isnode _ _ _ U), (nu_lst _ _ _ U), EN, EB, ED, EP, Nat.eqb_refl, (nu_hi _ _ _ U).
+    repeat split; auto. eapply strictB_upd; eauto.
+Qed.
+
+(* P_ld: the load of m_head / m_tail only chooses the branch *)
+Lemma GS_hold_only g p p' :
+  GS g p -> priv_node p' = priv_node p -> erasing p' = erasing p -> back_ok g p' = back_ok g p -> hold_ok g p' -> GS g p'.
+Proof.
+  intros [H1 H2 H3 H4 H5 H6 H7 H8 H9 H10] Pp Ep Bp Hh. constructor; auto.
+  - rewrite Pp. exact H4.
+  - rewrite Ep. exact H5.
+  - rewrite Bp. exact H8.
+Qed.
+Lemma step_P_ld g o n :
+  GS g (P_ld o n) ->
+  GS g (if is_front o then match head g with None => P_e1 o n | Some old => PF_next n old end
+        else match tail g with None => P_e1 o n | Some old => PB_back n old end).
+Proof.
+  intros G. pose proof (gs_hold _ _ G) as Hh. cbn [hold_ok] in Hh.
+  pose proof (gs_fwd _ _ G) as [Hf _]. pose proof (gs_back _ _ G) as Hb. cbn [back_ok] in Hb. destruct Hb as [_ Ht].
+  destruct (is_front o) eqn:Ef.
+  - destruct (head g) as [old|] eqn:Eh; eapply GS_hold_only; eauto; cbn [hold_ok].
+    + split; [|congruence]. unfold fresh_node, strict in *. rewrite Ef in Hh. exact Hh.
+    + split; [exact Hh|]. destruct (lst g); [reflexivity|discriminate].
+  - destruct (tail g) as [old|] eqn:Et; eapply GS_hold_only; eauto; cbn [hold_ok].
+    + split; [|congruence]. unfold fresh_node, strict in *. rewrite Ef in Hh. exact Hh.
+    + split; [exact Hh|]. apply last_opt_none. congruence.
+Qed.
+
+(* ---------- publication of the first element ---------- *)
+Lemma step_P_e1 g o n :
+  GS g (P_e1 o n) ->
+  let g' := commit (with_head g (Some n)) (if is_front o then MPushF n else MPushB n) in
+  GS g' (P_e2 n) /\ mono g g'.
+Proof.
+  intros G g'. pose proof (gs_hold _ _ G) as Hh. cbn [hold_ok] in Hh.
+  destruct Hh as ((Hi & Hnl & Hx & Hb & Hd & Hp & Hs) & Hl).
+  assert (EL : lst g' = [n]) by (unfold g'; cbn; rewrite Hl; destruct (is_front o); reflexivity).
+  assert (EV : forall k, gnode g' k = gnode g k) by reflexivity.
+  assert (EI : forall k, isnode g' k = isnode g k) by reflexivity.
+  assert (Hpub : forall k, pubn g k -> pubn g' k).
+  { intros k [A B]. split; [exact A|]. rewrite Hl in B. destruct B as [[]|B]. right. exact B. }
+  destruct G as [H1 H2 H3 H4 H5 H6 H7 H8 H9 H10]. split; [|split; [exact Hpub|auto]].
+  constructor.
+  - rewrite EL. constructor; [intros []|constructor].
+  - intros k. rewrite EL. intros [<-|[]]. exact Hi.
+  - rewrite EL. split; [reflexivity|]. cbn. split; [exact Hx|exact I].
+  - intros k Hk. rewrite EL. destruct (H4 k Hk) as [A|[A|A]]; [rewrite Hl in A; destruct A|auto|].
+    cbn in A. inversion A. left. left. reflexivity.
+  - intros k. rewrite EL. intros [<-|[]] Hdk. change (dl g' n) with (dl g n) in Hdk. congruence.
+  - intros k m [A B] Hm. rewrite EL in B. change (nx g' k) with (nx g k) in Hm.
+    assert (pubn g k) as Hk.
+    { destruct B as [[<-|[]]|B]; [congruence|]. split; [exact A|right; exact B]. }
+    destruct (H6 k m Hk Hm) as [C D]. split; [apply Hpub; exact C|exact D].
+  - exact H7.
+  - cbn [back_ok] in *. rewrite EL. destruct H8 as [_ Ht]. rewrite Hl in Ht. repeat split; auto.
+  - exact I.
+  - unfold g'. cbn [lst mlog commit with_head]. rewrite fold_apply_app, <- H10. reflexivity.
+Qed.
+
+(* same node-level views except back pointers and m_tail *)
+Record sameN (g g' : glob) : Prop := {
+  sn_head : head g' = head g; sn_lst : lst g' = lst g;
+  sn_mlog : lst g = fold_left apply_m (mlog g) [] -> lst g' = fold_left apply_m (mlog g') [];
+  sn_lo : lo g' = lo g; sn_hi : hi g' = hi g;
+  sn_nx : forall k, nx g' k = nx g k; sn_dl : forall k, dl g' k = dl g k; sn_ps : forall k, ps g' k = ps g k;
+  sn_isnode : forall k, isnode g' k = isnode g k;
+  sn_isrec : forall k, isrec g' k = isrec g k
+}.
+Lemma sameN_tail g x : sameN g (with_tail g x).
+Proof. constructor; try reflexivity. auto. Qed.
+Lemma sameN_refl g : sameN g g.
+Proof. constructor; try reflexivity. auto. Qed.
+Lemma pubn_sameN g g' k : sameN g g' -> pubn g k <-> pubn g' k.
+Proof.
+  intros S. unfold pubn. rewrite (sn_isnode _ _ S), (sn_lst _ _ S), (sn_dl _ _ S). tauto.
+Qed.
+Lemma mono_sameN g g' : sameN g g' -> mono g g'.
+Proof. intros S. split; [intros k; apply (pubn_sameN _ _ _ S)|intros k; rewrite (sn_isrec _ _ S); auto]. Qed.
+Lemma GS_sameN g g' p p' :
+  sameN g g' -> GS g p ->
+  (forall k, priv_node p = Some k -> priv_node p' = Some k \/ In k (lst g) \/ dl g k = true) ->
+  (forall k, erasing p = Some k -> erasing p' = Some k \/ ~ In k (lst g)) ->
+  back_ok g' p' -> hold_ok g' p' -> GS g' p'.
+Proof.
+  intros S [H1 H2 H3 H4 H5 H6 H7 H8 H9 H10] Pp Ep Hb Hh.
+  pose proof (sn_nx _ _ S) as EN. pose proof (sn_dl _ _ S) as ED. pose proof (sn_ps _ _ S) as EP.
+  pose proof (sn_lst _ _ S) as EL. pose proof (sn_isnode _ _ S) as EI.
+  constructor; auto.
+  - rewrite EL. exact H1.
+  - intros k. rewrite EL, EI. auto.
+  - destruct H3 as [A B]. split; [rewrite (sn_head _ _ S), EL; exact A|rewrite EL; eapply chn_ext; [|exact B]; intros; apply EN].
+  - intros k Hk. rewrite EI in Hk. rewrite EL, ED. destruct (H4 k Hk) as [A|[A|A]]; auto.
+    destruct (Pp k A) as [B|[B|B]]; auto.
+  - intros k Hk Hd. rewrite EL in Hk. rewrite ED in Hd. destruct (Ep k (H5 k Hk Hd)) as [A|A]; [exact A|contradiction].
+  - intros k m Hk Hm. rewrite EN in Hm. apply (pubn_sameN _ _ _ S) in Hk. destruct (H6 k m Hk Hm) as [A B].
+    split; [apply (pubn_sameN _ _ _ S); exact A|rewrite !EP; exact B].
+  - rewrite (sn_lo _ _ S), (sn_hi _ _ S). destruct H7 as [A B]. split; [exact A|]. intros k. rewrite EI, EP. auto.
+  - apply (sn_mlog _ _ S). exact H10.
+Qed.
+
+Lemma step_P_e2 g n :
+  GS g (P_e2 n) -> GS (with_tail g (Some n)) P_unlock /\ mono g (with_tail g (Some n)).
+Proof.
+  intros G. pose proof (gs_back _ _ G) as Hb. cbn [back_ok] in Hb. destruct Hb as (Hl & Hb & Ht).
+  split; [|apply mono_sameN, sameN_tail].
+  eapply GS_sameN; [apply sameN_tail|exact G| | | |exact I].
+  - intros k E. discriminate.
+  - intros k E. discriminate.
+  - cbn [back_ok]. change (lst (with_tail g (Some n))) with (lst g). rewrite Hl. cbn. repeat split. exact Hb.
+Qed.
+
+Lemma sameN_set_back g k x : isnode g k = true -> sameN g (setn g k (n_back (gnode g k) x)).
+Proof.
+  intros H. destruct (set_back_views g k x H) as (EN & EB & ED & EP). destruct (nviews_setn g k (n_back (gnode g k) x) H).
+  constructor; auto. congruence.
+Qed.
+
+Lemma strictF_sameN g g' n : sameN g g' -> strictF g n -> strictF g' n.
+Proof. intros S H k Hk Hkn. rewrite (sn_isnode _ _ S) in Hk. rewrite (sn_lo _ _ S), (sn_ps _ _ S). auto. Qed.
+Lemma strictB_sameN g g' n : sameN g g' -> strictB g n -> strictB g' n.
+Proof. intros S H k Hk Hkn. rewrite (sn_isnode _ _ S) in Hk. rewrite (sn_hi _ _ S), (sn_ps _ _ S). auto. Qed.
+
+Lemma step_PF_back g n old :
+  GS g (PF_back n old) ->
+  let g' := setn g old (n_back (gnode g old) (Some n)) in
+  GS g' (PF_head n) /\ mono g g'.
+Proof.
+  intros G g'. pose proof (gs_hold _ _ G) as Hh. cbn [hold_ok] in Hh.
+  destruct Hh as (Hi & Hnl & Hx & Hb & Hd & Hp & Hs & Hhd).
+  destruct (hd_opt_In _ _ Hhd) as [r Er].
+  assert (Hio : isnode g old = true) by (apply (gs_nodes _ _ G); rewrite Er; left; reflexivity).
+  pose proof (sameN_set_back g old (Some n) Hio) as S. fold g' in S.
+  destruct (set_back_views g old (Some n) Hio) as (_ & EB & _ & _). fold g' in EB.
+  assert (Hno : n <> old) by (intros ->; apply Hnl; rewrite Er; left; reflexivity).
+  split; [|apply mono_sameN; exact S].
+  eapply GS_sameN; [exact S|exact G| | | |].
+  - intros k E. left. exact E.
+  - intros k E. discriminate.
+  - cbn [back_ok]. rewrite (sn_lst _ _ S). pose proof (gs_back _ _ G) as Hbk. cbn [back_ok] in Hbk. destruct Hbk as [Hbw Ht].
+    split; [|destruct (nviews_setn g old (n_back (gnode g old) (Some n)) Hio) as [_ _ _ _ T _ _ _ _ _]; fold g' in T; rewrite T; exact Ht].
+    rewrite Er in *. cbn [bwdl] in *. destruct Hbw as [_ Hbw]. split; [rewrite EB, Nat.eqb_refl; reflexivity|].
+    eapply bwdl_ext; [|exact Hbw]. intros a Ha. rewrite EB. destruct (Nat.eqb_spec a old) as [->|]; [|reflexivity].
+    pose proof (gs_nodup _ _ G) as ND. rewrite Er in ND. inversion ND; contradiction.
+  - cbn [hold_ok]. exists old. rewrite (sn_isnode _ _ S), (sn_lst _ _ S), (sn_nx _ _ S), (sn_dl _ _ S), (sn_ps _ _ S), (sn_lo _ _ S), EB.
+    destruct (Nat.eqb_spec n old); [contradiction|]. repeat split; auto. eapply strictF_sameN; eauto.
+Qed.
+
+Lemma step_PF_head g n :
+  GS g (PF_head n) ->
+  let g' := commit (with_head g (Some n)) (MPushF n) in
+  GS g' P_unlock /\ mono g g'.
+Proof.
+  intros G g'. pose proof (gs_hold _ _ G) as Hh. cbn [hold_ok] in Hh.
+  destruct Hh as (old & Hi & Hnl & Hx & Hb & Hd & Hp & Hs & Hhd).
+  destruct (hd_opt_In _ _ Hhd) as [r Er].
+  assert (EL : lst g' = n :: lst g) by reflexivity.
+  assert (Hpub : forall k, pubn g k -> pubn g' k).
+  { intros k [A B]. split; [exact A|]. rewrite EL. destruct B; [left; right; auto|right; auto]. }
+  assert (Hpubn : pubn g' n) by (split; [exact Hi|left; rewrite EL; left; reflexivity]).
+  destruct G as [H1 H2 H3 H4 H5 H6 H7 H8 H9 H10]. split; [|split; [exact Hpub|auto]].
+  constructor.
+  - rewrite EL. constructor; auto.
+  - intros k. rewrite EL. intros [<-|Hk]; [exact Hi|apply H2; exact Hk].
+  - rewrite EL. destruct H3 as [A B]. split; [reflexivity|]. cbn [chn]. split; [|eapply chn_ext; [|exact B]; reflexivity].
+    change (nx g' n) with (nx g n). rewrite Hx, Er. reflexivity.
+  - intros k Hk. rewrite EL. destruct (H4 k Hk) as [A|[A|A]]; [left; right; exact A|right; left; exact A|].
+    cbn in A. inversion A. left. left. reflexivity.
+  - intros k. rewrite EL. intros [<-|Hk] Hdk; [change (dl g' n) with (dl g n) in Hdk; congruence|].
+    specialize (H5 k Hk Hdk). discriminate.
+  - intros k m [A B] Hm. rewrite EL in B. change (nx g' k) with (nx g k) in Hm.
+    destruct (Nat.eq_dec k n) as [->|Hkn].
+    + rewrite Hx in Hm. inversion Hm; subst m. split.
+      * apply Hpub. split; [apply H2; rewrite Er; left; reflexivity|left; rewrite Er; left; reflexivity].
+      * change (ps g' n) with (ps g n). change (ps g' old) with (ps g old). rewrite Hp. apply Hs.
+        -- apply H2. rewrite Er. left. reflexivity.
+        -- intros ->. apply Hnl. rewrite Er. left. reflexivity.
+    + assert (pubn g k) as Hk.
+      { split; [exact A|]. destruct B as [[E|B]|B]; [congruence|left; exact B|right; exact B]. }
+      destruct (H6 k m Hk Hm) as [C D]. split; [apply Hpub; exact C|exact D].
+  - exact H7.
+  - cbn [back_ok] in *. rewrite EL. destruct H8 as [Hbw Ht]. cbn [bwdl]. repeat split; [exact Hb|eapply bwdl_ext; [|exact Hbw]; reflexivity|].
+    change (tail g') with (tail g). rewrite Ht, Er. reflexivity.
+  - exact I.
+  - unfold g'. cbn [lst mlog commit with_head]. rewrite fold_apply_app, <- H10. reflexivity.
+Qed.
+
+Lemma NoDup_snoc {A} (l : list A) x : NoDup l -> ~ In x l -> NoDup (l ++ [x]).
+Proof.
+  induction l as [|a r IH]; cbn; intros H Hx; [constructor; [intros []|constructor]|].
+  inversion H; subst. constructor.
+  - intros Hi. apply in_app_or in Hi. destruct Hi as [Hi|[->|[]]]; [contradiction|]. apply Hx. left. reflexivity.
+  - apply IH; auto.
+Qed.
+
+Lemma step_PB_next g n old :
+  GS g (PB_next n old) ->
+  let g' := commit (setn g old (n_next (gnode g old) (Some n))) (MPushB n) in
+  GS g' (PB_tail n) /\ mono g g'.
+Proof.
+  intros G g'. pose proof (gs_hold _ _ G) as Hh. cbn [hold_ok] in Hh.
+  destruct Hh as (Hi & Hnl & Hx & Hb & Hd & Hp & Hs & Hla).
+  destruct (last_opt_split _ _ Hla) as [l0 El].
+  assert (Hio : isnode g old = true) by (apply (gs_nodes _ _ G); rewrite El; apply in_or_app; right; left; reflexivity).
+  set (g1 := setn g old (n_next (gnode g old) (Some n))).
+  destruct (set_next_views g old (Some n) Hio) as (EN & EB & ED & EP). fold g1 in EN, EB, ED, EP.
+  destruct (nviews_setn g old (n_next (gnode g old) (Some n)) Hio) as [VI VR VC VH VT VL VM VLo VHi VX]. fold g1 in VI, VR, VC, VH, VT, VL, VM, VLo, VHi, VX.
+  assert (EL : lst g' = lst g ++ [n]) by (change (lst g') with (lst g1 ++ [n]); rewrite VL; reflexivity).
+  assert (Hno : n <> old) by (intros ->; apply Hnl; rewrite El; apply in_or_app; right; left; reflexivity).
+  pose proof (gs_nodup _ _ G) as ND.
+  assert (Hol0 : ~ In old l0).
+  { rewrite El in ND. apply NoDup_remove_2 in ND. rewrite app_nil_r in ND. exact ND. }
+  assert (Hpub : forall k, pubn g k -> pubn g' k).
+  { intros k [A B]. split; [change (isnode g' k) with (isnode g1 k); rewrite VI; exact A|].
+    rewrite EL. change (dl g' k) with (dl g1 k). rewrite ED. destruct B; [left; apply in_or_app; auto|right; auto]. }
+  assert (Hpubn : pubn g' n).
+  { split; [change (isnode g' n) with (isnode g1 n); rewrite VI; exact Hi|left; rewrite EL; apply in_or_app; right; left; reflexivity]. }
+  destruct G as [H1 H2 H3 H4 H5 H6 H7 H8 H9 H10].
+  split; [|split; [exact Hpub|intros k Hk; change (isrec g' k) with (isrec g1 k); rewrite VR; exact Hk]].
+  constructor.
+  - rewrite EL. apply NoDup_snoc; auto.
+  - intros k. rewrite EL. intros Hk. change (isnode g' k) with (isnode g1 k). rewrite VI.
+    apply in_app_or in Hk. destruct Hk as [Hk|[<-|[]]]; [apply H2; exact Hk|exact Hi].
+  - rewrite EL. destruct H3 as [A B]. split.
+    + change (head g') with (head g1). rewrite VH, A, El. destruct l0; reflexivity.
+    + rewrite El in B |- *. rewrite <- app_assoc. cbn [app]. apply chn_app in B. destruct B as [B1 B2].
+      apply chn_app. cbn [hd_or chn] in *. change (nx g' old) with (nx g1 old). change (nx g' n) with (nx g1 n).
+      rewrite !EN, Nat.eqb_refl. destruct (Nat.eqb_spec n old); [contradiction|]. repeat split; auto.
+      eapply chn_ext; [|exact B1]. intros a Ha. change (nx g' a) with (nx g1 a). rewrite EN.
+      destruct (Nat.eqb_spec a old) as [->|]; [contradiction|reflexivity].
+  - intros k Hk. change (isnode g' k) with (isnode g1 k) in Hk. rewrite VI in Hk. rewrite EL. change (dl g' k) with (dl g1 k). rewrite ED.
+    destruct (H4 k Hk) as [A|[A|A]]; [left; apply in_or_app; auto|auto|].
+    cbn in A. inversion A. left. apply in_or_app. right. left. reflexivity.
+  - intros k. rewrite EL. change (dl g' k) with (dl g1 k). rewrite ED. intros Hk Hdk.
+    apply in_app_or in Hk. destruct Hk as [Hk|[<-|[]]]; [specialize (H5 k Hk Hdk); discriminate|congruence].
+  - intros k m [A B] Hm. change (nx g' k) with (nx g1 k) in Hm. rewrite EN in Hm.
+    change (ps g' k) with (ps g1 k). change (ps g' m) with (ps g1 m). rewrite !EP.
+    change (isnode g' k) with (isnode g1 k) in A. rewrite VI in A. change (dl g' k) with (dl g1 k) in B. rewrite ED, EL in B.
+    destruct (Nat.eqb_spec k old) as [->|Hko].
+    + inversion Hm; subst m. split; [exact Hpubn|]. rewrite Hp. apply Hs; auto.
+    + destruct (Nat.eq_dec k n) as [->|Hkn]; [congruence|].
+      assert (pubn g k) as Hk.
+      { split; [exact A|]. destruct B as [B|B]; [|right; exact B]. apply in_app_or in B. destruct B as [B|[B|[]]]; [left; exact B|congruence]. }
+      destruct (H6 k m Hk Hm) as [C D]. split; [apply Hpub; exact C|exact D].
+  - change (lo g') with (lo g1). change (hi g') with (hi g1). rewrite VLo, VHi. destruct H7 as [A B]. split; [exact A|].
+    intros k Hk. change (isnode g' k) with (isnode g1 k) in Hk. rewrite VI in Hk. change (ps g' k) with (ps g1 k). rewrite EP. auto.
+  - cbn [back_ok] in *. rewrite EL. destruct H8 as [Hbw Ht]. split.
+    + apply bwdl_app. split.
+      * eapply bwdl_ext; [|exact Hbw]. intros a Ha. change (bk g' a) with (bk g1 a). apply EB.
+      * unfold last_or. rewrite Hla. cbn. split; [|exact I]. change (bk g' n) with (bk g1 n). rewrite EB. exact Hb.
+    + exists (lst g). split; [reflexivity|]. change (tail g') with (tail g1). rewrite VT. exact Ht.
+  - exact I.
+  - change (lst g') with (apply_m (lst g1) (MPushB n)). change (mlog g') with (mlog g1 ++ [MPushB n]).
+    rewrite VM, VL, fold_apply_app, <- H10. reflexivity.
+Qed.
+
+Lemma step_PB_tail g n :
+  GS g (PB_tail n) -> GS (with_tail g (Some n)) P_unlock /\ mono g (with_tail g (Some n)).
+Proof.
+  intros G. pose proof (gs_back _ _ G) as Hb. cbn [back_ok] in Hb. destruct Hb as (Hbw & l0 & Hl & Ht).
+  split; [|apply mono_sameN, sameN_tail].
+  eapply GS_sameN; [apply sameN_tail|exact G| | | |exact I].
+  - intros k E. discriminate.
+  - intros k E. discriminate.
+  - cbn [back_ok]. change (lst (with_tail g (Some n))) with (lst g). split.
+    + eapply bwdl_ext; [|exact Hbw]. reflexivity.
+    + rewrite Hl, last_opt_app. reflexivity.
+Qed.
+
+(* ---------- erase ---------- *)
+(* erase of an already erased node: the sequential no-op *)
+Lemma step_E_ld0_noop g it c :
+  GS g (E_ld0 it c) -> pubn g c -> dl g c = true ->
+  ~ In c (lst g) /\ forall p', plain p' = true -> GS (commit g (MErase c)) p' /\ mono g (commit g (MErase c)).
+Proof.
+  intros G Hc Hd.
+  assert (Hnl : ~ In c (lst g)).
+  { intros Hi. pose proof (gs_del _ _ G c Hi Hd) as E. discriminate. }
+  split; [exact Hnl|]. intros p' Hp'.
+  assert (S : sameN g (commit g (MErase c))).
+  { constructor; try reflexivity.
+    - cbn. apply remove_nat_notin. exact Hnl.
+    - intros H. cbn [lst mlog commit]. rewrite fold_apply_app, <- H. reflexivity. }
+  split; [|apply mono_sameN; exact S].
+  apply (GS_plain _ (E_ld0 it c) p' eq_refl Hp').
+  eapply GS_sameN; [exact S|exact G|intros k E; discriminate|intros k E; discriminate| |exact I].
+  cbn [back_ok]. pose proof (gs_back _ _ G) as Hb. cbn [back_ok] in Hb. destruct Hb as [A B].
+  rewrite (sn_lst _ _ S). split; [eapply bwdl_ext; [|exact A]; reflexivity|exact B].
+Qed.
+
+Lemma step_E_ld0_mark g it c nx0 :
+  GS g (E_ld0 it c) -> pubn g c -> dl g c = false ->
+  let g' := setn g c (n_del (gnode g c)) in
+  GS g' (E_ldb it c nx0) /\ mono g g'.
+Proof.
+  intros G [Hi Hc] Hd g'. destruct Hc as [Hc|Hc]; [|congruence].
+  destruct (set_del_views g c Hi) as (EN & EB & ED & EP). fold g' in EN, EB, ED, EP.
+  destruct (nviews_setn g c (n_del (gnode g c)) Hi) as [VI VR VC VH VT VL VM VLo VHi VX]. fold g' in VI, VR, VC, VH, VT, VL, VM, VLo, VHi, VX.
+  assert (Hpub : forall k, pubn g k -> pubn g' k).
+  { intros k [A B]. split; [rewrite VI; exact A|]. rewrite VL, ED. destruct (Nat.eqb k c); tauto. }
+  assert (Hpub' : forall k, pubn g' k -> pubn g k).
+  { intros k [A B]. rewrite VI in A. rewrite VL, ED in B. split; [exact A|].
+    destruct (Nat.eqb_spec k c) as [->|]; [left; exact Hc|exact B]. }
+  destruct G as [H1 H2 H3 H4 H5 H6 H7 H8 H9 H10].
+  split; [|split; [exact Hpub|intros k Hk; rewrite VR; exact Hk]].
+  constructor.
+  - rewrite VL. exact H1.
+  - intros k. rewrite VL, VI. auto.
+  - destruct H3 as [A B]. split; [rewrite VH, VL; exact A|rewrite VL; eapply chn_ext; [|exact B]; intros; apply EN].
+  - intros k Hk. rewrite VI in Hk. rewrite VL, ED. destruct (H4 k Hk) as [A|[A|A]]; [auto| |discriminate].
+    right. left. destruct (Nat.eqb k c); auto.
+  - intros k Hk Hdk. rewrite VL in Hk. rewrite ED in Hdk. destruct (Nat.eqb_spec k c) as [->|]; [reflexivity|].
+    specialize (H5 k Hk Hdk). discriminate.
+  - intros k m Hk Hm. rewrite EN in Hm. destruct (H6 k m (Hpub' _ Hk) Hm) as [A B]. split; [auto|rewrite !EP; exact B].
+  - rewrite VLo, VHi. destruct H7 as [A B]. split; [exact A|]. intros k. rewrite VI, EP. auto.
+  - cbn [back_ok] in *. rewrite VL, VT. destruct H8 as [A B]. split; [|exact B]. eapply bwdl_ext; [|exact A]. intros; apply EB.
+  - cbn [hold_ok]. rewrite VL, ED, Nat.eqb_refl. auto.
+  - rewrite VL, VM. exact H10.
+Qed.
+
+Lemma step_E_ldb g it c nx0 :
+  GS g (E_ldb it c nx0) -> GS g (E_ldn it c nx0 (bk g c)).
+Proof.
+  intros G. pose proof (gs_hold _ _ G) as Hh. cbn [hold_ok] in Hh. destruct Hh as [Hc Hd].
+  eapply GS_sameN; [apply sameN_refl|exact G| | | |].
+  - intros k E. discriminate.
+  - intros k E. left. exact E.
+  - exact (gs_back _ _ G).
+  - cbn [hold_ok]. split; [exact Hd|]. destruct (in_split _ _ Hc) as (l1 & l2 & El). exists l1, l2. split; [exact El|].
+    pose proof (gs_back _ _ G) as Hb. cbn [back_ok] in Hb. destruct Hb as [A _]. rewrite El in A.
+    apply bwdl_app in A. destruct A as [_ A]. cbn [bwdl] in A. destruct A as [A _]. rewrite A.
+    unfold last_or. destruct (last_opt l1); reflexivity.
+Qed.
+
+Lemma step_E_ldn g it c nx0 pv :
+  GS g (E_ldn it c nx0 pv) -> GS g (E_s1 it c nx0 pv (nx g c)).
+Proof.
+  intros G. pose proof (gs_hold _ _ G) as Hh. cbn [hold_ok] in Hh. destruct Hh as (Hd & l1 & l2 & El & Hpv).
+  eapply GS_sameN; [apply sameN_refl|exact G| | | |].
+  - intros k E. discriminate.
+  - intros k E. left. exact E.
+  - exact (gs_back _ _ G).
+  - cbn [hold_ok]. split; [exact Hd|]. exists l1, l2. repeat split; auto.
+    pose proof (gs_fwd _ _ G) as [_ B]. rewrite El in B. apply chn_app in B. destruct B as [_ B]. cbn [chn] in B. destruct B as [B _]. exact B.
+Qed.
+
+Lemma option_eq_dec (a b : option nat) : {a = b} + {a <> b}.
+Proof. decide equality. apply Nat.eq_dec. Qed.
+Lemma In_last_opt_split l p : last_opt l = Some p -> exists l0, l = l0 ++ [p].
+Proof. apply last_opt_split. Qed.
+
+(* the unlink: g1 is g with the predecessor's next (or m_head) redirected to the successor *)
+Lemma step_E_s1_gen g g1 it c nx0 pv nxt :
+  GS g (E_s1 it c nx0 pv nxt) ->
+  (forall j, isnode g1 j = isnode g j) -> (forall j, isrec g1 j = isrec g j) ->
+  (forall j, bk g1 j = bk g j) -> (forall j, dl g1 j = dl g j) -> (forall j, ps g1 j = ps g j) ->
+  lst g1 = lst g -> mlog g1 = mlog g -> lo g1 = lo g -> hi g1 = hi g -> tail g1 = tail g ->
+  (forall j, pv <> Some j -> nx g1 j = nx g j) ->
+  (forall p, pv = Some p -> nx g1 p = nxt /\ head g1 = head g) ->
+  (pv = None -> head g1 = nxt) ->
+  let g' := commit g1 (MErase c) in
+  GS g' (E_s2 it c nx0 pv nxt) /\ mono g g'.
+Proof.
+  intros G VI VR EB ED EP VL VM VLo VHi VT EN EN1 EH g'.
+  pose proof (gs_hold _ _ G) as Hh. cbn [hold_ok] in Hh. destruct Hh as (Hd & l1 & l2 & El & Hpv & Hnx).
+  pose proof (gs_nodup _ _ G) as ND. rewrite El in ND. destruct (NoDup_mid _ _ _ ND) as (Hc1 & Hc2 & ND').
+  assert (EL : lst g' = l1 ++ l2).
+  { change (lst g') with (remove_nat c (lst g1)). rewrite VL, El. apply remove_nat_mid; auto. }
+  assert (Hic : isnode g c = true) by (apply (gs_nodes _ _ G); rewrite El; apply in_or_app; right; left; reflexivity).
+  assert (Hsub : forall k, In k (l1 ++ l2) -> In k (lst g)).
+  { intros k Hk. rewrite El. apply in_app_or in Hk. apply in_or_app. destruct Hk; [left|right; right]; auto. }
+  assert (Hsub' : forall k, In k (lst g) -> In k (l1 ++ l2) \/ k = c).
+  { intros k Hk. rewrite El in Hk. apply in_app_or in Hk. destruct Hk as [Hk|[Hk|Hk]]; [left; apply in_or_app; auto|auto|left; apply in_or_app; auto]. }
+  assert (Hpub : forall k, pubn g k -> pubn g' k).
+  { intros k [A B]. split; [change (isnode g' k) with (isnode g1 k); rewrite VI; exact A|].
+    rewrite EL. change (dl g' k) with (dl g1 k). rewrite ED. destruct B as [B|B]; [|auto].
+    destruct (Hsub' _ B) as [B'| ->]; auto. }
+  assert (Hpub' : forall k, pubn g' k -> pubn g k).
+  { intros k [A B]. change (isnode g' k) with (isnode g1 k) in A. rewrite VI in A. split; [exact A|].
+    rewrite EL in B. change (dl g' k) with (dl g1 k) in B. rewrite ED in B. destruct B as [B|B]; auto. }
+  pose proof (gs_fwd _ _ G) as [FA FB]. rewrite El in FA, FB.
+  apply chn_app in FB. destruct FB as [FB1 FB2]. cbn [chn hd_or] in FB1, FB2. destruct FB2 as [FBc FB2].
+  assert (Enxt : nxt = hd_or l2 None) by exact Hnx.
+  pose proof (gs_back _ _ G) as Hb. cbn [back_ok] in Hb. destruct Hb as [BA BT]. rewrite El in BA, BT.
+  apply bwdl_app in BA. destruct BA as [BA1 BA2]. cbn [bwdl] in BA2. destruct BA2 as [BAc BA2].
+  destruct G as [H1 H2 H3 H4 H5 H6 H7 H8 H9 H10].
+  split; [|split; [exact Hpub|intros k Hk; change (isrec g' k) with (isrec g1 k); rewrite VR; exact Hk]].
+  constructor.
+  - rewrite EL. exact ND'.
+  - intros k. rewrite EL. intros Hk. change (isnode g' k) with (isnode g1 k). rewrite VI. apply H2. apply Hsub. exact Hk.
+  - rewrite EL. change (head g') with (head g1). change (chn g' (l1 ++ l2) None) with (chn g1 (l1 ++ l2) None).
+    destruct pv as [p|].
+    + symmetry in Hpv. destruct (last_opt_split _ _ Hpv) as [l0 E0]. subst l1.
+      destruct (EN1 p eq_refl) as [Np Hh]. split.
+      * rewrite Hh, FA. destruct l0; reflexivity.
+      * rewrite <- app_assoc. cbn [app].
+        apply chn_app in FB1. destruct FB1 as [F0 Fp]. cbn [chn hd_or] in F0, Fp.
+        assert (Hp0 : ~ In p l0).
+        { apply NoDup_app_l in ND'. apply NoDup_remove_2 in ND'. rewrite app_nil_r in ND'. exact ND'. }
+        assert (Hp2 : ~ In p l2).
+        { rewrite <- app_assoc in ND'. cbn [app] in ND'. apply NoDup_remove_2 in ND'. intros Hi. apply ND'. apply in_or_app. auto. }
+        apply chn_app. cbn [chn hd_or]. repeat split.
+        -- eapply chn_ext; [|exact F0]. intros a Ha. apply EN. intros E; inversion E; subst; contradiction.
+        -- change (nx g' p) with (nx g1 p). rewrite Np. exact Enxt.
+        -- eapply chn_ext; [|exact FB2]. intros a Ha. apply EN. intros E; inversion E; subst; contradiction.
+    + symmetry in Hpv. apply last_opt_none in Hpv. subst l1. cbn [app] in *. split.
+      * rewrite (EH eq_refl). exact Enxt.
+      * eapply chn_ext; [|exact FB2]. intros a Ha. apply EN. discriminate.
+  - intros k Hk. change (isnode g' k) with (isnode g1 k) in Hk. rewrite VI in Hk. rewrite EL. change (dl g' k) with (dl g1 k). rewrite ED.
+    destruct (H4 k Hk) as [A|[A|A]]; [|auto|discriminate]. destruct (Hsub' _ A) as [A'| ->]; auto.
+  - intros k. rewrite EL. change (dl g' k) with (dl g1 k). rewrite ED. intros Hk Hdk.
+    pose proof (H5 k (Hsub _ Hk) Hdk) as E. cbn in E. inversion E; subst k. exfalso.
+    apply in_app_or in Hk. destruct Hk; contradiction.
+  - intros k m Hk Hm. change (nx g' k) with (nx g1 k) in Hm. change (ps g' k) with (ps g1 k). change (ps g' m) with (ps g1 m). rewrite !EP.
+    destruct (option_eq_dec pv (Some k)) as [Epv|Epv].
+    + destruct (EN1 k Epv) as [Nk _]. rewrite Nk in Hm. subst nxt.
+      (* k is the predecessor of c, m its successor *)
+      assert (nx g k = Some c) as Nkc.
+      { symmetry in Hpv. rewrite Epv in Hpv. destruct (last_opt_split _ _ Hpv) as [l0 E0]. subst l1.
+        apply chn_app in FB1. destruct FB1 as [_ Fp]. cbn [chn hd_or app] in Fp. destruct Fp as [Fp _]. exact Fp. }
+      assert (nx g c = Some m) as Ncm by congruence.
+      destruct (H6 k c (Hpub' _ Hk) Nkc) as [Pc Lkc]. destruct (H6 c m Pc Ncm) as [Pm Lcm].
+      split; [apply Hpub; exact Pm|lia].
+    + rewrite EN in Hm by exact Epv. destruct (H6 k m (Hpub' _ Hk) Hm) as [A B]. split; [apply Hpub; exact A|exact B].
+  - change (lo g') with (lo g1). change (hi g') with (hi g1). rewrite VLo, VHi. destruct H7 as [A B]. split; [exact A|].
+    intros k Hk. change (isnode g' k) with (isnode g1 k) in Hk. rewrite VI in Hk. change (ps g' k) with (ps g1 k). rewrite EP. auto.
+  - cbn [back_ok]. change (isnode g' c) with (isnode g1 c). change (dl g' c) with (dl g1 c). rewrite VI, ED, EL.
+    repeat split; auto.
+    + intros Hi. apply in_app_or in Hi. destruct Hi; contradiction.
+    + exists l1, l2. repeat split; auto.
+      * eapply bwdl_ext; [|exact BA1]. intros a Ha. change (bk g' a) with (bk g1 a). apply EB.
+      * eapply bwdl_ext; [|exact BA2]. intros a Ha. change (bk g' a) with (bk g1 a). apply EB.
+      * change (tail g') with (tail g1). rewrite VT, BT. rewrite last_opt_app2 by discriminate. apply last_opt_cons_or.
+  - exact I.
+  - change (lst g') with (apply_m (lst g1) (MErase c)). change (mlog g') with (mlog g1 ++ [MErase c]).
+    rewrite VM, VL, fold_apply_app, <- H10. reflexivity.
+Qed.
